@@ -488,6 +488,37 @@ def _run_random(ctx, case):
             ctx.check("whole_plate_is_permuted_bijectively",
                       _is_perm(inv_out, all_ids),
                       lambda: dict(base, function="derandomize_wells", input=all_ids, returned=inv_out))
+    if perm is not None and R * C > 1:
+        # "fully determined by the seed": objects with another QUERY HISTORY - asked first for the last well only, for
+        # the plate back to front, or for the pre-image of the last well - answer with the same assignment
+        inv = {v: k for k, v in perm.items()}
+        last = all_ids[-1]
+        rev = all_ids[::-1]
+        pick = [all_ids[i] for i in sorted(rng.sample(range(len(all_ids)), min(len(all_ids), 5)), reverse=True)]
+        try:
+            fresh = [WellRandomizer((R, C), seed, mode=mode) for _ in range(4)]
+        except Exception:
+            fresh = []
+        if fresh:
+            ctx.count("fresh_objects_with_other_query_history")
+            o = J.call("randomize_wells", fresh[0].randomize_wells, [last], "list", "last_well_first")
+            if o is not None:
+                J.eq("same_seed_gives_same_mapping", list(o), [perm[last]], "randomize_wells (fresh object, first query is the last well)", "last_well_first", [last])
+                o = J.call("randomize_wells", fresh[0].randomize_wells, all_ids, "list", "flat_list")
+                if o is not None:
+                    J.eq("same_seed_gives_same_mapping", list(o), list(perm_out), "randomize_wells (whole plate, object first asked for the last well)", "flat_list", all_ids)
+            o = J.call("randomize_wells", fresh[1].randomize_wells, rev, "list", "plate_back_to_front")
+            if o is not None:
+                J.eq("same_seed_gives_same_mapping", list(o), [perm[i] for i in rev], "randomize_wells (fresh object, plate back to front)", "plate_back_to_front", rev)
+            o = J.call("derandomize_wells", fresh[2].derandomize_wells, [last], "list", "last_well_first")
+            if o is not None:
+                J.eq("same_seed_gives_same_mapping", list(o), [inv[last]], "derandomize_wells (fresh object, first query is the last well)", "last_well_first", [last])
+                o = J.call("randomize_wells", fresh[2].randomize_wells, all_ids, "list", "flat_list")
+                if o is not None:
+                    J.eq("same_seed_gives_same_mapping", list(o), list(perm_out), "randomize_wells (whole plate, object first asked to derandomize the last well)", "flat_list", all_ids)
+            o = J.call("randomize_wells", fresh[3].randomize_wells, pick, "list", "few_wells_descending")
+            if o is not None:
+                J.eq("same_seed_gives_same_mapping", list(o), [perm[i] for i in pick], "randomize_wells (fresh object, a few wells in descending order)", "few_wells_descending", pick)
     for name, container, coords in _inputs(rng, R, C):
         x = _map(coords, wid)
         is2d = _is2d(coords)
